@@ -23,6 +23,8 @@ structure Sim (g g' : G) : Prop where
   /-- the dynamic ports of every entity whose architecture is running agree (they were discarded on both sides
       when the architecture was entered); those of other classes may differ arbitrarily -/
   dyn : ∀ fr ∈ g.s .arch, ∀ p, (fr.getD 2 0, p) ∈ g.dyn ↔ (fr.getD 2 0, p) ∈ g'.dyn
+  /-- the class-level reserved-name sets of the back end have the same content -/
+  res : g.reserved = g'.reserved
 
 theorem cur_eq {g g' : G} (h : Sim g g') : cur g = cur g' := by
   unfold cur
@@ -68,7 +70,7 @@ theorem allNew_congr {g g1 : G} (hs : g1.s = g.s) (h : AllNew g) : AllNew g1 := 
 
 theorem sim_push {g g' : G} (k : Kind) (p : List Nat) (hk : k ≠ .arch) (h : Sim g g') :
     Sim (push k p g) (push k p g') := by
-  refine ⟨?_, h.inst, h.reg, h.pfx, h.fn, h.ty, ?_⟩
+  refine ⟨?_, h.inst, h.reg, h.pfx, h.fn, h.ty, ?_, h.res⟩
   · intro j hj
     by_cases e : j = k
     · subst e; simp [h.s j hj]
@@ -78,7 +80,7 @@ theorem sim_push {g g' : G} (k : Kind) (p : List Nat) (hk : k ≠ .arch) (h : Si
     exact h.dyn fr hfr
 
 theorem sim_pop {g g' : G} (k : Kind) (h : Sim g g') : Sim (pop k g) (pop k g') := by
-  refine ⟨?_, h.inst, h.reg, h.pfx, h.fn, h.ty, ?_⟩
+  refine ⟨?_, h.inst, h.reg, h.pfx, h.fn, h.ty, ?_, h.res⟩
   · intro j hj
     by_cases e : j = k
     · subst e; simp [h.s j hj]
@@ -96,18 +98,18 @@ theorem sim_exitOk {g g' : G} (k : Kind) (h : Sim g g') : Sim (exitOk k g) (exit
   | conv =>
     have hp := sim_pop .conv h
     simp only [exitOk]
-    refine ⟨hp.s, ?_, rfl, hp.pfx, hp.fn, hp.ty, hp.dyn⟩
+    refine ⟨hp.s, ?_, rfl, hp.pfx, hp.fn, hp.ty, hp.dyn, hp.res⟩
     simp only [pop_inst, pop_reg, h.inst, h.reg]
   | arch =>
     simp only [exitOk]
     rw [← h.s .arch rfl]
     split
     · have hp := sim_pop .arch h
-      exact ⟨hp.s, hp.inst, by simp [h.reg], hp.pfx, hp.fn, hp.ty, hp.dyn⟩
+      exact ⟨hp.s, hp.inst, by simp [h.reg], hp.pfx, hp.fn, hp.ty, hp.dyn, hp.res⟩
     · exact h
   | ctx =>
     simp only [exitOk]
-    refine ⟨?_, h.inst, h.reg, h.pfx, h.fn, h.ty, ?_⟩
+    refine ⟨?_, h.inst, h.reg, h.pfx, h.fn, h.ty, ?_, h.res⟩
     · intro j hj
       by_cases e : j = .ctx
       · subst e; simp
@@ -126,6 +128,7 @@ theorem sim_exitOk {g g' : G} (k : Kind) (h : Sim g g') : Sim (exitOk k g) (exit
   | irapply => exact sim_pop _ h
   | sm => exact sim_pop _ h
   | loop => exact sim_pop _ h
+  | scope => exact sim_pop _ h
 
 theorem allNew_exitOk {g : G} (k : Kind) (h : AllNew g) : AllNew (exitOk k g) := by
   cases k with
@@ -151,6 +154,7 @@ theorem allNew_exitOk {g : G} (k : Kind) (h : AllNew g) : AllNew (exitOk k g) :=
   | irapply => exact allNew_pop _ h
   | sm => exact allNew_pop _ h
   | loop => exact allNew_pop _ h
+  | scope => exact allNew_pop _ h
 
 /-- `_Prefix.__init__` in two simulating states: same prefix string, states still simulate -/
 theorem sim_mkPrefix {g g' : G} (p : Nat) (h : Sim g g') (hn : AllNew g) :
@@ -172,14 +176,14 @@ theorem sim_mkPrefix {g g' : G} (p : Nat) (h : Sim g g') (hn : AllNew g) :
     · by_cases hoc : g.owner = some c
       · have hoc' : g'.owner = some c := by rw [← ho]; exact hoc
         simp only [mkPrefix, hcur, hcur', hoc, hoc', if_true, hpfx, ← he]
-        exact ⟨_, _, _, rfl, rfl, ⟨h.s, h.inst, h.reg, Or.inl ⟨by simp [hoc, hoc'], rfl⟩, h.fn, h.ty, h.dyn⟩, rfl, rfl⟩
+        exact ⟨_, _, _, rfl, rfl, ⟨h.s, h.inst, h.reg, Or.inl ⟨by simp [hoc, hoc'], rfl⟩, h.fn, h.ty, h.dyn, h.res⟩, rfl, rfl⟩
       · have hoc' : ¬ g'.owner = some c := by rw [← ho]; exact hoc
         simp only [mkPrefix, hcur, hcur', hoc, hoc', if_false, hpfx]
-        exact ⟨_, _, _, rfl, rfl, ⟨h.s, h.inst, h.reg, Or.inl ⟨rfl, rfl⟩, h.fn, h.ty, h.dyn⟩, rfl, rfl⟩
+        exact ⟨_, _, _, rfl, rfl, ⟨h.s, h.inst, h.reg, Or.inl ⟨rfl, rfl⟩, h.fn, h.ty, h.dyn, h.res⟩, rfl, rfl⟩
     · have n1 : ¬ g.owner = some c := fun e => o1 c e c0
       have n2 : ¬ g'.owner = some c := fun e => o2 c e c0
       simp only [mkPrefix, hcur, hcur', n1, n2, if_false, hpfx]
-      exact ⟨_, _, _, rfl, rfl, ⟨h.s, h.inst, h.reg, Or.inl ⟨rfl, rfl⟩, h.fn, h.ty, h.dyn⟩, rfl, rfl⟩
+      exact ⟨_, _, _, rfl, rfl, ⟨h.s, h.inst, h.reg, Or.inl ⟨rfl, rfl⟩, h.fn, h.ty, h.dyn, h.res⟩, rfl, rfl⟩
 
 theorem allNew_push_other {g : G} (k : Kind) (p : List Nat) (h1 : k ≠ .arch) (h2 : k ≠ .blk)
     (h : AllNew g) : AllNew (push k p g) := by
@@ -221,7 +225,7 @@ theorem sim_enter {g g' : G} (k : Kind) (a : List Nat) (n : Nat) (h : Sim g g') 
         · exact allNew_push_other _ _ (by decide) (by decide) hn
       · right
         refine ⟨_, _, _, by simp only [hc, hi, if_false]; rfl, by simp only [hc, hi, if_false]; rfl, ?_, ?_⟩
-        · refine ⟨?_, by simp [h.inst], h.reg, h.pfx, h.fn, h.ty, ?_⟩
+        · refine ⟨?_, by simp [h.inst], h.reg, h.pfx, h.fn, h.ty, ?_, h.res⟩
           · intro j hj
             by_cases e : j = .arch
             · subst e; simp [h.s _ hj]
@@ -243,7 +247,7 @@ theorem sim_enter {g g' : G} (k : Kind) (a : List Nat) (n : Nat) (h : Sim g g') 
       refine ⟨_, _, _, by simp only [hc, ne_eq, not_true_eq_false, if_false]; rfl,
         by simp only [hc, ne_eq, not_true_eq_false, if_false]; rfl, ?_, ?_⟩
       · have hp := sim_push .conv [0, n] (by decide) h
-        exact ⟨hp.s, hp.inst, rfl, hp.pfx, hp.fn, hp.ty, hp.dyn⟩
+        exact ⟨hp.s, hp.inst, rfl, hp.pfx, hp.fn, hp.ty, hp.dyn, hp.res⟩
       · exact allNew_congr (g := push .conv [0, n] g) rfl (allNew_push_other _ _ (by decide) (by decide) hn)
     · left; exact ⟨.convActive, by simp [hc], by simp [hc]⟩
   | arch => simpa only [enter] using archCase
@@ -253,7 +257,7 @@ theorem sim_enter {g g' : G} (k : Kind) (a : List Nat) (n : Nat) (h : Sim g g') 
     exact ⟨_, _, _, rfl, rfl, sim_push _ _ (by decide) h, allNew_push _ _ (by intro i hi; simp [idOf] at hi; rw [← hi]) hn⟩
   | ctx =>
     right
-    refine ⟨_, _, _, rfl, rfl, ⟨?_, h.inst, h.reg, h.pfx, h.fn, h.ty, ?_⟩, ?_⟩
+    refine ⟨_, _, _, rfl, rfl, ⟨?_, h.inst, h.reg, h.pfx, h.fn, h.ty, ?_, h.res⟩, ?_⟩
     · intro j hj
       by_cases e : j = .ctx
       · subst e; simp
@@ -284,6 +288,11 @@ theorem sim_enter {g g' : G} (k : Kind) (a : List Nat) (n : Nat) (h : Sim g g') 
   | ircall => simpa only [enter] using generic .ircall (by decide) (by decide)
   | irapply => simpa only [enter] using generic .irapply (by decide) (by decide)
   | loop => simpa only [enter] using generic .loop (by decide) (by decide)
+  | scope =>
+    right
+    refine ⟨_, _, _, rfl, ?_, sim_push .scope (g.reserved ++ a) (by decide) h,
+      allNew_push_other _ _ (by decide) (by decide) hn⟩
+    simp only [enter, h.res]
 
 theorem sim_act {g g' : G} (cfg : Cfg) (perm : List Nat → List Nat) (a : Act) (h : Sim g g') (hn : AllNew g) :
     Agree (act cfg perm a g) (act cfg perm a g') (fun g1 g1' => Sim g1 g1' ∧ AllNew g1) := by
@@ -303,7 +312,7 @@ theorem sim_act {g g' : G} (cfg : Cfg) (perm : List Nat → List Nat) (a : Act) 
     have s1 := cacheGet_sound f h.fn.1
     have s2 := cacheGet_sound f h.fn.2
     refine ⟨{ g with fnCache := (cacheGet g.fnCache f).2 }, { g' with fnCache := (cacheGet g'.fnCache f).2 },
-      [[4, f, defOf f]], ?_, ?_, ⟨h.s, h.inst, h.reg, h.pfx, ⟨s1.2, s2.2⟩, h.ty, h.dyn⟩, allNew_congr rfl hn⟩
+      [[4, f, defOf f]], ?_, ?_, ⟨h.s, h.inst, h.reg, h.pfx, ⟨s1.2, s2.2⟩, h.ty, h.dyn, h.res⟩, allNew_congr rfl hn⟩
     · simp only [act, s1.1]
     · simp only [act, s2.1]
   | ty t =>
@@ -311,13 +320,18 @@ theorem sim_act {g g' : G} (cfg : Cfg) (perm : List Nat → List Nat) (a : Act) 
     have s1 := cacheGet_sound t h.ty.1
     have s2 := cacheGet_sound t h.ty.2
     refine ⟨{ g with tyCache := (cacheGet g.tyCache t).2 }, { g' with tyCache := (cacheGet g'.tyCache t).2 },
-      [[5, t, defOf t]], ?_, ?_, ⟨h.s, h.inst, h.reg, h.pfx, h.fn, ⟨s1.2, s2.2⟩, h.dyn⟩, allNew_congr rfl hn⟩
+      [[5, t, defOf t]], ?_, ?_, ⟨h.s, h.inst, h.reg, h.pfx, h.fn, ⟨s1.2, s2.2⟩, h.dyn, h.res⟩, allNew_congr rfl hn⟩
     · simp only [act, s1.1]
     · simp only [act, s2.1]
-  | ifExpr => right; exact ⟨_, _, _, rfl, rfl, ⟨h.s, h.inst, h.reg, h.pfx, h.fn, h.ty, h.dyn⟩, allNew_congr rfl hn⟩
+  | ifExpr => right; exact ⟨_, _, _, rfl, rfl, ⟨h.s, h.inst, h.reg, h.pfx, h.fn, h.ty, h.dyn, h.res⟩, allNew_congr rfl hn⟩
   | libs xs => right; exact ⟨_, _, _, rfl, rfl, h, hn⟩
   | mem x xs => right; exact ⟨_, _, _, rfl, rfl, h, hn⟩
   | emit t => right; exact ⟨_, _, _, rfl, rfl, h, hn⟩
+  | declare n =>
+    simp only [act, ← h.s .scope rfl]
+    cases g.s .scope with
+    | nil => left; exact ⟨_, rfl, rfl⟩
+    | cons t ts => right; exact ⟨_, _, _, rfl, rfl, h, hn⟩
   | addPort p =>
     simp only [act, ← h.s .arch rfl]
     cases hs : g.s .arch with
@@ -338,7 +352,7 @@ theorem sim_act {g g' : G} (cfg : Cfg) (perm : List Nat → List Nat) (a : Act) 
         have hc2 : g'.dyn.contains (fr.getD 2 0, p) = false := by simpa using hc'
         refine ⟨{ g with dyn := (fr.getD 2 0, p) :: g.dyn }, { g' with dyn := (fr.getD 2 0, p) :: g'.dyn },
           [[9, fr.getD 2 0, p]], by rw [hc1]; rfl, by rw [hc2]; rfl,
-          ⟨h.s, h.inst, h.reg, h.pfx, h.fn, h.ty, ?_⟩, allNew_congr rfl hn⟩
+          ⟨h.s, h.inst, h.reg, h.pfx, h.fn, h.ty, ?_, h.res⟩, allNew_congr rfl hn⟩
         intro fr2 hfr2 q
         have := h.dyn fr2 hfr2 q
         simp only [List.mem_cons, this]
@@ -376,11 +390,12 @@ end CohdlVerif.C11
 namespace CohdlVerif.C11
 
 /-- a clean state with an old prefix owner and sound caches simulates the initial state -/
-theorem sim_init {g : G} (h : Clean g) (ho : Old g.owner) (hf : CacheSound g.fnCache) (ht : CacheSound g.tyCache) :
+theorem sim_init {g : G} (h : Clean g) (ho : Old g.owner) (hf : CacheSound g.fnCache) (ht : CacheSound g.tyCache)
+    (hr : g.reserved = G.init.reserved) :
     Sim g G.init ∧ AllNew g := by
   refine ⟨⟨fun k hk => by rw [h.1 k hk]; rfl, h.2.1, h.2.2, Or.inr ⟨ho, fun p hp => by simp [G.init] at hp⟩,
     ⟨hf, fun e he => by simp [G.init] at he⟩, ⟨ht, fun e he => by simp [G.init] at he⟩,
-    fun fr hfr => by rw [h.1 .arch rfl] at hfr; simp at hfr⟩, ?_⟩
+    fun fr hfr => by rw [h.1 .arch rfl] at hfr; simp at hfr, hr⟩, ?_⟩
   intro k hk p hp
   rcases hk with rfl | rfl
   · rw [h.1 .arch rfl] at hp; simp at hp
@@ -499,6 +514,10 @@ theorem act_sound {cfg : Cfg} {perm : List Nat → List Nat} {a : Act} {g g1 : G
       · simp at h
       · simp only [Except.ok.injEq, Prod.mk.injEq] at h; obtain ⟨rfl, _⟩ := h; exact hs
     · simp at h
+  case declare n =>
+    split at h
+    · simp only [Except.ok.injEq, Prod.mk.injEq] at h; obtain ⟨rfl, _⟩ := h; exact hs
+    · simp at h
   all_goals (simp only [Except.ok.injEq, Prod.mk.injEq] at h; obtain ⟨rfl, _⟩ := h; exact hs)
 
 /-- the caches stay sound through a whole compilation, whatever happens in it -/
@@ -533,5 +552,106 @@ theorem sound_run (cfg : Cfg) (perm : List Nat → List Nat) (evs : List Ev) :
       | ok r =>
         obtain ⟨g1, t⟩ := r
         exact ih _ _ _ _ (act_sound he h)
+
+end CohdlVerif.C11
+
+namespace CohdlVerif.C11
+
+/-! the class-level reserved-name sets are never written by a compilation -/
+
+theorem mkPrefix_reserved {p : Nat} {g g1 : G} {str : List Nat} (h : mkPrefix p g = some (g1, str)) :
+    g1.reserved = g.reserved := by
+  unfold mkPrefix at h
+  split at h
+  · simp at h
+  · simp only [Option.some.injEq, Prod.mk.injEq] at h
+    obtain ⟨h1, _⟩ := h
+    subst h1
+    split <;> simp
+
+theorem enter_reserved {k k1 : Kind} {a : List Nat} {n : Nat} {g g1 : G} {t : List Tok}
+    (h : enter k a n g = .ok (g1, t, k1)) : g1.reserved = g.reserved := by
+  cases k
+  case pfx =>
+    simp only [enter] at h
+    split at h
+    · simp at h
+    · rename_i g2 str hm
+      simp only [Except.ok.injEq, Prod.mk.injEq] at h
+      obtain ⟨rfl, _⟩ := h
+      exact mkPrefix_reserved (g1 := g2) hm
+  all_goals
+    simp only [enter] at h
+    repeat' split at h
+    all_goals first
+      | (simp only [Except.ok.injEq, Prod.mk.injEq] at h; obtain ⟨rfl, _⟩ := h; rfl)
+      | (simp at h)
+
+theorem exitOk_reserved (k : Kind) (g : G) : (exitOk k g).reserved = g.reserved := by
+  cases k <;> simp only [exitOk] <;> (try split) <;> (first | rfl | simp [pop])
+
+theorem exitExc_reserved (cfg : Cfg) (k : Kind) (g : G) : (exitExc cfg k g).reserved = g.reserved := by
+  cases k <;> simp only [exitExc] <;> repeat' split
+  all_goals first
+    | rfl
+    | exact exitOk_reserved _ _
+
+theorem unwind_reserved (cfg : Cfg) (F : List Kind) (g : G) : (unwind cfg F g).reserved = g.reserved := by
+  induction F generalizing g with
+  | nil => rfl
+  | cons k F ih => exact (ih (exitExc cfg k g)).trans (exitExc_reserved cfg k g)
+
+theorem closeAll_reserved (F : List Kind) (g : G) : (closeAll F g).reserved = g.reserved := by
+  induction F generalizing g with
+  | nil => rfl
+  | cons k F ih => exact (ih (exitOk k g)).trans (exitOk_reserved k g)
+
+theorem act_reserved {cfg : Cfg} {perm : List Nat → List Nat} {a : Act} {g g1 : G} {t : List Tok}
+    (h : act cfg perm a g = .ok (g1, t)) : g1.reserved = g.reserved := by
+  cases a <;> simp only [act] at h
+  case name n => split at h <;> (simp only [Except.ok.injEq, Prod.mk.injEq] at h; obtain ⟨rfl, _⟩ := h; rfl)
+  case useCtx =>
+    split at h
+    · simp only [Except.ok.injEq, Prod.mk.injEq] at h; obtain ⟨rfl, _⟩ := h; rfl
+    · simp at h
+  case addPort p =>
+    split at h
+    · split at h
+      · simp at h
+      · simp only [Except.ok.injEq, Prod.mk.injEq] at h; obtain ⟨rfl, _⟩ := h; rfl
+    · simp at h
+  case declare n =>
+    split at h
+    · simp only [Except.ok.injEq, Prod.mk.injEq] at h; obtain ⟨rfl, _⟩ := h; rfl
+    · simp at h
+  all_goals (simp only [Except.ok.injEq, Prod.mk.injEq] at h; obtain ⟨rfl, _⟩ := h; rfl)
+
+/-- a whole compilation (any design, any options, any crash point) leaves the class-level sets as they were -/
+theorem reserved_run (cfg : Cfg) (perm : List Nat → List Nat) (evs : List Ev) :
+    ∀ (F : List Kind) (n : Nat) (g : G) (out : List Tok), (run cfg perm evs F n g out).2.reserved = g.reserved := by
+  induction evs with
+  | nil => intro F n g out; exact closeAll_reserved F g
+  | cons ev evs ih =>
+    intro F n g out
+    cases ev with
+    | fail => exact unwind_reserved cfg F g
+    | exit =>
+      cases F with
+      | nil => exact ih [] _ g out
+      | cons k F => exact (ih F _ _ out).trans (exitOk_reserved k g)
+    | enter k a =>
+      simp only [run]
+      cases he : enter k a n g with
+      | error e => exact unwind_reserved cfg F g
+      | ok r =>
+        obtain ⟨g1, t, k1⟩ := r
+        exact (ih _ _ _ _).trans (enter_reserved he)
+    | act a =>
+      simp only [run]
+      cases he : act cfg perm a g with
+      | error e => exact unwind_reserved cfg F g
+      | ok r =>
+        obtain ⟨g1, t⟩ := r
+        exact (ih _ _ _ _).trans (act_reserved he)
 
 end CohdlVerif.C11
